@@ -116,10 +116,20 @@ def in_set(x, vals):
     return z3.Or([x == v for v in vals])
 
 
+def std_len(cls, d):
+    """the payload length is one the encoder produces (148 / 444 bits, plus the two legacy padding octets on version 0; for version-1
+    Rx the length the modulation prescribes).  Only for those the layout fixes how many burst bits there are; what a parser makes of
+    other payload lengths (cut, keep, refuse) is its own business."""
+    P = d["payload"]
+    if cls == "tx":
+        return z3.If(d["ver"] == 0, in_set(P, [148, 150, 444, 446]), in_set(P, [148, 444]))
+    return z3.If(d["ver"] == 0, in_set(P, [0, 148, 150, 444, 446]), z3.BoolVal(True))
+
+
 def dec_valid(cls, d):
     """the decoded content is a message inside the protocol value ranges (C13) - a parser may refuse anything else"""
     from .valid_msg import HYPERFRAME
-    c = [d["fn"] >= 0, d["fn"] <= HYPERFRAME - 1]
+    c = [d["fn"] >= 0, d["fn"] <= HYPERFRAME - 1, std_len(cls, d)]
     if cls == "tx":
         c += [z3.Not(d["burst_none"]), z3.Or(d["blen"] == 148, d["blen"] == 444)]
         return z3.And(c)
@@ -148,6 +158,7 @@ def dec(cls, octet, n):
         hlen = z3.IntVal(6)
         d["pwr"] = octet(5)
         P = n - hlen
+        d["payload"] = P
         # GSM/EDGE length selection: longer payloads are cut to 444, or to 148 when below 444
         blen = z3.If(P >= 444, z3.IntVal(444), z3.If(P > 148, z3.IntVal(148), P))
         d["accept"] = z3.And(n >= 5, z3.Or(ver == 0, ver == 1), n >= hlen)
@@ -163,6 +174,7 @@ def dec(cls, octet, n):
     d["nope"], d["coding"], d["tsc_set"], d["tsc"] = dec_mts(mts)
     d["ci"] = s16_of_u16(octet(9) * 256 + octet(10))
     P = n - hlen
+    d["payload"] = P
     plain = in_set(P, MOD_LENS)
     padded = in_set(P - 2, MOD_LENS)
     d["accept"] = z3.And(n >= 5, z3.Or(ver == 0, ver == 1), n >= hlen,
